@@ -28,7 +28,7 @@ pub fn run(ctx: &Ctx, rep: &mut Report) {
             // observed rendering per code, for the injectivity check
             let mut seen: BTreeMap<String, u64> = BTreeMap::new();
             for code in 0..(1u64 << width) {
-                let contexts = if ctx.thorough() { 256 } else { 12 };
+                let contexts = if ctx.thorough() { 512 } else { 64 };
                 for c in 0..contexts {
                     let mut bits = fresh(b, &mut r);
                     bits.put(f.start as usize, width, code);
